@@ -235,6 +235,12 @@ def c12(tier, seed):
               req({"S1": F(1, 2)})]
     ms.append(model("relative", ["S1", "H2"], ["quote", "rebal"], depth, fees="dy", bids=(8,), spreads=(0, 8), reqs=reqs_r,
                     maxrebal=2, invariants=inv, properties=props))
+    # a standing request: the SAME request object is executed, and submitted again after prices moved; whole-lot imbalances
+    # below one lot and drifts below the threshold must then be skipped, whatever the first execution traded
+    ms.append(model("resubmit", ["S1", "H2"], ["quote", "prepare", "resubmit"], 5, fees="free", bids=(8, 12), spreads=(0,),
+                    reqs=[req({"S1": F(1, 2)}, fractional=False), req({"S1": F(1, 4), "H2": F(-1, 4)}, thr=t16),
+                          req({"S1": F(2), "H2": F(-1)}, measure="lots", fractional=False)],
+                    maxrebal=3, invariants=inv, properties=props))
     if tier != "quick":
         ms.append(model("thr-f4", ["S2", "F4"], ["quote", "trade", "rebal"], 5, fees="free", bids=(8, 12), spreads=(0, 4),
                         dqs=(-1, 2),
